@@ -71,10 +71,6 @@ func OracleC01(r *Run) []Problem {
 		}
 		if outRefused {
 			for _, e := range r.Trace {
-				if e.Kind == EvLine && e.Plain && strings.Contains(e.Data, tagOf(n)) {
-					add("refused-stream-output-shown", "output of refused stream a%d (%s) was displayed: %q", n, ai.MustRefuse["output"], clipData(e.Data))
-					break
-				}
 				if e.Kind == EvRead && e.Att == n {
 					add("refused-stream-output-read", "the reader of refused output a%d (%s) was read from", n, ai.MustRefuse["output"])
 					break
@@ -85,7 +81,7 @@ func OracleC01(r *Run) []Problem {
 			continue
 		}
 		notices := noticesFor(r.Trace, n)
-		if ai.AfterNoMore {
+		if ai.AllAfterNoMore() {
 			if len(notices) > 0 {
 				add("notice-during-shutdown", "attempt a%d made during shutdown produced an operator notice: %q", n, notices[0].Data)
 			}
@@ -95,7 +91,7 @@ func OracleC01(r *Run) []Problem {
 					break
 				}
 			}
-		} else if len(notices) == 0 {
+		} else if len(notices) == 0 && ((inRefused && !ai.AfterNoMore["input"]) || (outRefused && !ai.AfterNoMore["output"])) {
 			why := ai.MustRefuse["input"] + ai.MustRefuse["output"]
 			add("refusal-not-announced", "attempt a%d (%s, key %s) was refused (%s) but no operator notice carries its address", n, ai.A.Kind, clipKey(ai.A.Key), why)
 		}
